@@ -6,7 +6,7 @@ ALLOPS = '{"label", "face_query", "featval", "destroy_fval", "make_font", "destr
 
 
 def write_cfg(name, **kw):
-    d = dict(Kinds='{"good"}', Srcs='{"ops"}', Texts="{0, 1}", ClientOps=ALLOPS, MaxOps=3, NameMemo="TRUE", Emit="TRUE")
+    d = dict(Kinds='{"good"}', OptSet="{0, 1, 2, 3, 4, 5, 6, 7}", Srcs='{"ops"}', Texts="{0, 1}", ClientOps=ALLOPS, MaxOps=3, NameMemo="TRUE", Emit="TRUE")
     d.update(kw)
     body = "SPECIFICATION Spec\nCONSTANTS\n" + "".join("  %s = %s\n" % (k, v) for k, v in d.items())
     body += "INVARIANTS NoCallbackWhenPreloaded NothingHeldWhenGone HeldIsStable TypeOK EmitDone\n"
